@@ -113,6 +113,28 @@ theorem WF_flatten (b : Builder) (hbi : BI b) (hoki : OKI b) : WF b.flatten := b
   refine ⟨g.1, ?_, fun _ => hoki g hg d hdg⟩
   simp [Builder.flatten, hbi.idx i g hgi' d hdg, hgi']
 
+/-- a builder whose documents are all copyable writes an aligned shard: a reader sees the metadata as contributed -/
+theorem realign_flatten (b : Builder) (hoki : OKI b) : realign b.flatten = b.flatten := by
+  have : aligned b.flatten = true := by
+    unfold aligned
+    rw [List.all_eq_true]
+    intro d hd
+    simp only [Builder.flatten, List.mem_flatMap] at hd
+    obtain ⟨g, hg, hdg⟩ := hd
+    have ok := hoki g hg d hdg
+    have h1 : d.syms.all (·.isSome) = true := by
+      rw [List.all_eq_true]
+      intro x hx
+      cases x with
+      | some y => rfl
+      | none =>
+        have := ok.syms
+        rw [Bool.eq_false_iff] at this
+        exact absurd (List.any_eq_true.2 ⟨none, hx, rfl⟩) this
+    simp [ok.symlen, h1]
+  unfold realign
+  rw [if_pos this]
+
 theorem mergeLoop_spec :
     ∀ (shards : List Shard) (b : Builder), (∀ sh ∈ shards, WF sh) → BI b → NE b → OKI b →
       ∃ b', mergeLoop shards b = some b' ∧ BI b' ∧ NE b' ∧ OKI b' ∧ bflat b' = bflat b ++ shards.flatMap flat ∧
